@@ -5,6 +5,7 @@ from ..core import AnalysisError, norm, dotted, call_name, walk_no_nested, Folde
 from ..formula import compare, canon
 from ..dim import DimEval, V, TOP, POS, LEN, AREA, VOL, NUM, require
 from .pred_common import rule_pred
+from .. import roles
 
 LEVEL = 'other'
 EXPLANATION = (
@@ -176,18 +177,62 @@ def rule_twin(run):
     ti = [n for n in tv[0].body if isinstance(n, ast.If)]
     key = 'vertical connections :: top-of-column predicate'
     if gi and ti:
-        gt = _ren(norm(gi[0].test)).replace('ilay == 0', 'self.layerlist.index(lay) == 1')
-        tt = _ren(norm(ti[0].test))
-        if canon(ast.parse(gt, mode='eval').body) == canon(ast.parse(tt, mode='eval').body): run.ok(key, tt, where=av.where(ti[0]))
-        else: run.violated(key, 'geometry connects a block to the atmosphere when `%s`, the grid when `%s`' % (norm(gi[0].test), norm(ti[0].test)), where=av.where(ti[0]))
-        # enumerate offset: ilay enumerates layerlist[1:] from 0
-        en = [n for n in walk_no_nested(sc.node) if isinstance(n, ast.For) and isinstance(n.iter, ast.Call) and call_name(n.iter) == 'enumerate']
-        good = en and norm(en[0].iter) == 'enumerate(self.layerlist[1:])' and norm(en[0].target) == '(ilay, lay)'
-        run.shape(bool(good), 'vertical connections :: ilay enumerates layerlist[1:] from 0', 'enumeration not recognised', where=sc.where())
+        # index algebra.  L = position of `lay` in layerlist.  Geometry: `for I, lay in enumerate(self.layerlist[1:], start=s)` gives
+        # I = L - 1 + s.  Grid: geo.layerlist.index(lay) = L (held in a local or written in place).
+        en = [n for n in walk_no_nested(sc.node) if isinstance(n, ast.For) and isinstance(n.iter, ast.Call) and call_name(n.iter) == 'enumerate'
+              and n.iter.args and norm(n.iter.args[0]) == 'self.layerlist[1:]' and isinstance(n.target, ast.Tuple) and len(n.target.elts) == 2
+              and all(isinstance(e, ast.Name) for e in n.target.elts)]
+        gstart = None
+        if len(en) == 1:
+            st_ = en[0].iter.args[1] if len(en[0].iter.args) > 1 else next((k.value for k in en[0].iter.keywords if k.arg == 'start'), None)
+            gstart = 0 if st_ is None else (st_.value if isinstance(st_, ast.Constant) and isinstance(st_.value, int) else None)
+        run.shape(gstart is not None, 'vertical connections :: ilay enumerates layerlist[1:] from 0', 'enumeration not recognised', where=sc.where())
+        I = en[0].target.elts[0].id if len(en) == 1 else None
+        LAYV = en[0].target.elts[1].id if len(en) == 1 else 'lay'
+
+        def offset(e, is_base):
+            """c with e == base + c, or None"""
+            if is_base(e): return 0
+            if isinstance(e, ast.BinOp) and isinstance(e.op, (ast.Add, ast.Sub)) and isinstance(e.right, ast.Constant) and isinstance(e.right.value, int):
+                o = offset(e.left, is_base)
+                if o is not None: return o + (e.right.value if isinstance(e.op, ast.Add) else -e.right.value)
+            return None
+        g_base = lambda e: isinstance(e, ast.Name) and e.id == I
+        t_base = lambda e: norm(e) == 'geo.layerlist.index(lay)'
+
+        def split_pred(test, stmts, is_base, shift):
+            """(true layer index the index test selects, the other disjuncts as text) of `<index> == c or <rest>`"""
+            test = roles.inline_locals(test, stmts)
+            parts = list(test.values) if isinstance(test, ast.BoolOp) and isinstance(test.op, ast.Or) else [test]
+            Ls, rest = [], []
+            for p_ in parts:
+                if isinstance(p_, ast.Compare) and len(p_.ops) == 1 and isinstance(p_.ops[0], ast.Eq):
+                    for a_, b_ in ((p_.left, p_.comparators[0]), (p_.comparators[0], p_.left)):
+                        o = offset(a_, is_base)
+                        if o is not None and isinstance(b_, ast.Constant) and isinstance(b_.value, int):
+                            Ls.append(b_.value - o + shift); break
+                    else: rest.append(_ren(norm(p_)))
+                else: rest.append(_ren(norm(p_)))
+            return Ls, sorted(rest)
+        if gstart is None or I is None:
+            run.unknown(key, 'geometry-side enumeration not resolved', where=av.where(ti[0]))
+        else:
+            gL, grest = split_pred(gi[0].test, gv[0].body, g_base, 1 - gstart)
+            tL, trest = split_pred(ti[0].test, av.node.body, t_base, 0)
+            if len(gL) != 1 or len(tL) != 1:
+                run.unknown(key, 'index test not recognised: geometry `%s`, grid `%s`' % (norm(gi[0].test), norm(ti[0].test)), where=av.where(ti[0]))
+            elif gL == tL == [1] and grest == trest: run.ok(key, {'layer': 1, 'or': trest}, where=av.where(ti[0]))
+            elif gL != tL or gL != [1]:
+                run.violated(key, 'geometry connects a block to the atmosphere in layer %d (`%s`), the grid in layer %d (`%s`); the first layer below the '
+                             'atmosphere is layer 1' % (gL[0], norm(gi[0].test), tL[0], norm(ti[0].test)), where=av.where(ti[0]))
+            elif set(x for r_ in grest + trest for x in __import__('re').findall(r'[A-Za-z_]+', r_)) <= set(x for r_ in grest for x in __import__('re').findall(r'[A-Za-z_]+', r_)) \
+                    and len(grest) == len(trest):
+                run.violated(key, 'geometry connects a block to the atmosphere when `%s`, the grid when `%s`' % (norm(gi[0].test), norm(ti[0].test)), where=av.where(ti[0]))
+            else: run.unknown(key, 'geometry `%s`, grid `%s`' % (norm(gi[0].test), norm(ti[0].test)), where=av.where(ti[0]))
         # atmosphere switch inside the true branch
         for t, want_g, want_t in (('0', 'self.block_name_list[0]', 'self.blocklist[0]'), ('1', None, None)):
             g_if = [n for n in ast.walk(gi[0]) if isinstance(n, ast.If) and norm(n.test) == 'self.atmosphere_type == ' + t and n is not gi[0]]
-            t_if = [n for n in ast.walk(ti[0]) if isinstance(n, ast.If) and norm(n.test) == 'geo.atmosphere_type == ' + t and n is not ti[0]]
+            t_if = [n for n in ast.walk(ti[0]) if isinstance(n, ast.If) and norm(roles.inline_locals(n.test, tv[0].body)) == 'geo.atmosphere_type == ' + t and n is not ti[0]]
             k = 'vertical connections :: atmosphere type %s above block' % t
             if not g_if or not t_if: run.unknown(k, 'branch not found', where=av.where(ti[0])); continue
             ga = [s.value for s in g_if[0].body if isinstance(s, ast.Assign) and norm(s.targets[0]) == 'aboveblkname']
@@ -204,17 +249,30 @@ def rule_twin(run):
         # no-atmosphere case skips the connection on both sides
         gcont = any(isinstance(s, ast.Continue) for n in ast.walk(gi[0]) if isinstance(n, ast.If) for s in n.orelse)
         tcont = any(isinstance(s, ast.Continue) for n in ast.walk(ti[0]) if isinstance(n, ast.If) for s in n.orelse)
-        run.check(gcont and tcont, 'vertical connections :: no atmosphere -> no connection on both sides',
-                  'geometry %s, grid %s the top connection when there are no atmosphere blocks' % ('skips' if gcont else 'keeps', 'skips' if tcont else 'keeps'), where=av.where(ti[0]))
+        gsw = any(isinstance(n, ast.If) and n is not gi[0] and 'atmosphere_type' in norm(n.test) for n in ast.walk(gi[0]))
+        tsw = any(isinstance(n, ast.If) and n is not ti[0] and 'atmosphere_type' in norm(roles.inline_locals(n.test, tv[0].body)) for n in ast.walk(ti[0]))
+        if not (gsw and tsw):
+            run.unknown('vertical connections :: no atmosphere -> no connection on both sides', 'atmosphere-type switch not found in the '
+                        'surface branch (moved into a helper?)', where=av.where(ti[0]))
+        else:
+            run.check(gcont and tcont, 'vertical connections :: no atmosphere -> no connection on both sides',
+                      'geometry %s, grid %s the top connection when there are no atmosphere blocks' % ('skips' if gcont else 'keeps', 'skips' if tcont else 'keeps'), where=av.where(ti[0]))
         # above layer (else branch)
         gab = [s.value for s in gi[0].orelse if isinstance(s, ast.Assign) and norm(s.targets[0]) == 'abovelayer']
         tab_ = [s.value for s in ti[0].orelse if isinstance(s, ast.Assign) and norm(s.targets[0]) == 'abovelayer']
-        til = [s.value for s in ti[0].orelse if isinstance(s, ast.Assign) and norm(s.targets[0]) == 'ilayer']
         k = 'vertical connections :: layer above'
-        if gab and tab_ and til:
-            good = norm(gab[0]) == 'self.layerlist[ilay]' and norm(tab_[0]) == 'geo.layerlist[ilayer - 1]' and norm(til[0]) == 'geo.layerlist.index(lay)'
-            if good: run.ok(k, 'layerlist[ilay] == layerlist[index(lay) - 1]', where=av.where(ti[0]))
-            else: run.violated(k, 'geometry takes %s, grid %s with ilayer = %s' % (norm(gab[0]), norm(tab_[0]), norm(til[0])), where=av.where(ti[0]))
+        if gab and tab_ and gstart is not None and I is not None:
+            ga_ = roles.inline_locals(gab[0], gv[0].body)
+            ta_ = roles.inline_locals(tab_[0], av.node.body)
+            go = offset(ga_.slice, g_base) if isinstance(ga_, ast.Subscript) and norm(ga_.value) == 'self.layerlist' else None
+            to = offset(ta_.slice, t_base) if isinstance(ta_, ast.Subscript) and norm(ta_.value) == 'geo.layerlist' else None
+            if go is None or to is None: run.unknown(k, 'geometry takes %s, grid %s' % (norm(ga_), norm(ta_)), where=av.where(ti[0]))
+            else:
+                gl_, tl_ = go - 1 + gstart, to            # offsets relative to the true index L (I = L - 1 + s)
+                if gl_ == tl_ == -1: run.ok(k, 'layer L - 1 on both sides', where=av.where(ti[0]))
+                else:
+                    run.violated(k, 'for a block in layer L the geometry takes layer L%+d (`%s`), the grid layer L%+d (`%s`) as the layer above'
+                                 % (gl_, norm(gab[0]), tl_, norm(ta_)), where=av.where(ti[0]))
         else: run.unknown(k, 'assignments not found', where=av.where(ti[0]))
     else:
         run.unknown(key, 'predicate not found', where=av.where())
@@ -472,7 +530,15 @@ def rule_sumdist(run):
     top, inner = ti[0].body, ti[0].orelse
     def asg(stmts, name):
         v = [s.value for s in stmts if isinstance(s, ast.Assign) and norm(s.targets[0]) == name]
-        return v[0] if v else None
+        if v: return v[0]
+        # `belowdist, abovedist = pair` with `pair` a local bound once to a two-element literal (hoisted out of the loop)
+        for s_ in stmts:
+            if isinstance(s_, ast.Assign) and isinstance(s_.targets[0], (ast.Tuple, ast.List)) and isinstance(s_.value, ast.Name):
+                names_ = [norm(e) for e in s_.targets[0].elts]
+                src = [x for nm, x, st_ in roles.assignments(av.node) if nm == s_.value.id]
+                if name in names_ and len(src) == 1 and isinstance(src[0], (ast.List, ast.Tuple)) and len(src[0].elts) == len(names_):
+                    return src[0].elts[names_.index(name)]
+        return None
     # interior
     b, a = asg(inner, 'belowdist'), asg(inner, 'abovedist')
     key = 'vertical connections :: interior distances add up to the centre separation'
@@ -550,13 +616,41 @@ def rule_sumdist(run):
         if r == 'equal': run.ok(k, where=cp.where(sl[0]))
         elif r == 'different': run.violated(k, 'edge length is `%s`' % norm(sl[0].value), where=cp.where(sl[0]))
         else: run.unknown(k, norm(sl[0].value), where=cp.where(sl[0]))
-    ds = [n for n in walk_no_nested(cp.node) if isinstance(n, ast.Assign) and norm(n.targets[0]) == 'dist']
-    if ds:
-        r = compare(ds[0].value, '[norm(line_projection(c.centre, nodeline) - c.centre) for c in con.column]')
-        k = 'connection_params :: perpendicular distance from each column centre to the edge, in con.column order'
-        if r == 'equal': run.ok(k, where=cp.where(ds[0]))
-        elif r == 'different': run.violated(k, 'distances are `%s`' % norm(ds[0].value), where=cp.where(ds[0]))
-        else: run.unknown(k, norm(ds[0].value), where=cp.where(ds[0]))
+    # the distances, by role: first element of the returned [distances, area] pair (a local, or the expression itself)
+    k = 'connection_params :: perpendicular distance from each column centre to the edge, in con.column order'
+    pairs = [r_ for r_ in walk_no_nested(cp.node) if isinstance(r_, ast.Return) and isinstance(r_.value, (ast.List, ast.Tuple)) and len(r_.value.elts) == 2
+             and not isinstance(r_.value.elts[0], (ast.List, ast.Tuple, ast.Constant))]
+    if len(pairs) != 1: run.unknown(k, 'return of the [distances, area] pair not found exactly once', where=cp.where())
+    else:
+        dexp = pairs[0].value.elts[0]
+        if isinstance(dexp, ast.Name):
+            dv = [n.value for n in walk_no_nested(cp.node) if isinstance(n, ast.Assign) and norm(n.targets[0]) == dexp.id]
+            dexp = dv[0] if len(dv) == 1 else None
+        if dexp is None: run.unknown(k, 'distance expression not resolved', where=cp.where(pairs[0]))
+        else:
+            # the projection point is found through a local `nodeline` or written in place
+            nl = [n.value for n in walk_no_nested(cp.node) if isinstance(n, ast.Assign) and norm(n.targets[0]) == 'nodeline']
+            alts = ['[norm(line_projection(c.centre, %s) - c.centre) for c in con.column]' % norm(nl[0])] if len(nl) == 1 else []
+            r = compare(dexp, '[norm(line_projection(c.centre, nodeline) - c.centre) for c in con.column]', alts)
+            if r == 'equal': run.ok(k, where=cp.where(pairs[0]))
+            elif r == 'different':
+                run.violated(k, 'distances are `%s`: the grid places the block centres at the column `centre` (which for a column with a specified '
+                             'centre is not its centroid), so the connection distances must be measured from the same point' % norm(dexp), where=cp.where(pairs[0]))
+            else:
+                # same shape with another attribute of the column in place of `centre`?
+                class _A(ast.NodeTransformer):
+                    def __init__(self): self.seen = set()
+                    def visit_Attribute(self, n):
+                        self.generic_visit(n)
+                        if isinstance(n.value, ast.Name) and n.value.id == 'c' and n.attr != 'centre':
+                            self.seen.add(n.attr); return ast.copy_location(ast.Attribute(value=n.value, attr='centre', ctx=n.ctx), n)
+                        return n
+                tr = _A(); sub = tr.visit(copy.deepcopy(dexp))
+                if tr.seen and compare(sub, '[norm(line_projection(c.centre, nodeline) - c.centre) for c in con.column]', alts) == 'equal':
+                    run.violated(k, 'distances are measured from `c.%s`, not from `c.centre`: the grid places the block centres at the column `centre` '
+                                 '(for a column with a specified centre that is not its centroid), so the distances no longer are those from the block '
+                                 'centres to the shared edge' % sorted(tr.seen)[0], where=cp.where(pairs[0]), robust=True)
+                else: run.unknown(k, norm(dexp), where=cp.where(pairs[0]))
     # horizontal gravity cosine: d . tilt / |d|
     ah = prog.func(T2 + 'add_horizontal_layer_connections')
     dc = [n for n in ast.walk(ah.node) if isinstance(n, ast.Assign) and norm(n.targets[0]) == 'dircos']
@@ -579,7 +673,48 @@ def rule_nonetest(run):
     optnum_rule(run, ['mulgrids'], only=lambda fi: fi.name in names)
 
 
+def rule_indexorder(run):
+    run.rule('INDEXORDER', 'the connection-name index is built from the block-name list (it takes the atmosphere block name from it): '
+             'wherever one function rebuilds both for the same geometry, the block-name index is rebuilt first', floor=15)
+    prog = run.prog
+    A, B = 'setup_block_name_index', 'setup_block_connection_name_index'
+    cls = prog.cls('mulgrids', 'mulgrid')
+    fa, fb = cls.methods.get(A), cls.methods.get(B)
+    if fa is None or fb is None: raise AnalysisError('mulgrid.%s / %s not found' % (A, B))
+    stored = set(n.attr for n in ast.walk(fa.node) if isinstance(n, ast.Attribute) and isinstance(n.ctx, ast.Store) and dotted(n.value) == 'self')
+    dep = sorted(set(n.attr for n in ast.walk(fb.node) if isinstance(n, ast.Attribute) and isinstance(n.ctx, ast.Load) and dotted(n.value) == 'self') & stored)
+    if not dep:
+        run.ok('mulgrid.%s reads nothing that %s stores: no ordering obligation' % (B, A)); return
+    n = 0
+    for fi in prog.all_functions(['mulgrids', 't2grids', 't2data', 't2incons']):
+        calls = [c for c in walk_no_nested(fi.node) if isinstance(c, ast.Call) and isinstance(c.func, ast.Attribute) and c.func.attr in (A, B)]
+        recv = set(norm(c.func.value) for c in calls if c.func.attr == B)
+        for r in sorted(recv):
+            pos = lambda c: (c.lineno, c.col_offset)
+            ca = sorted(pos(c) for c in calls if c.func.attr == A and norm(c.func.value) == r)
+            cb = sorted(pos(c) for c in calls if c.func.attr == B and norm(c.func.value) == r)
+            if not ca: continue
+            n += 1
+            key = '%s :: %s.%s() before %s.%s()' % (fi.qual, r, A, r, B)
+            if cb[0] < ca[0]:
+                run.violated(key, 'the connection-name index is rebuilt before the block-name index: it reads %s, still holding the names '
+                             'of the previous state (e.g. the first block of the old atmosphere type as "the atmosphere block")' % dep,
+                             where=fi.where(), robust=True)
+            else: run.ok(key, where=fi.where())
+    run.ok('functions rebuilding both indexes', {'sites': n, 'dependency': dep})
+
+
+def rule_laytops(run):
+    run.rule('LAYTOPS', 'identify_layer_tops() gives the first (atmosphere) layer top = its own bottom and every other layer the bottom of '
+             'the layer above: block_surface(), and through it every top-block volume and connection area, compares column surfaces '
+             'with the first layer\'s top', floor=2)
+    from .laytops import laytops_rule
+    laytops_rule(run, run.prog.func('mulgrids.mulgrid.identify_layer_tops'))
+
+
 def check(run):
+    run.guarded('INDEXORDER', rule_indexorder)
+    run.guarded('LAYTOPS', rule_laytops)
     run.guarded('NONETEST', rule_nonetest)
     run.guarded('TWIN', rule_twin)
     run.guarded('SUMDIST', rule_sumdist)
